@@ -267,7 +267,7 @@ def execute(spec, world):
         r = history.apply(obj, st, world)
         attempts = list(world.solver.attempts)
         nfail = sum(1 for a in attempts if a["outcome"] in ("injected", "natural"))
-        skip_solver = bool(_solver_skip(world))
+        skip_solver = bool(_solver_skip(world, r.get("pre_attempts", ())))
         try:
             g1 = history.geometry(obj)
             t1 = history.geometry(tgt) if tgt is not obj else g1
@@ -483,7 +483,7 @@ def execute(spec, world):
                     PROP, "similarity", "%s = %r scaled the shape by %r" % (name, v, s), si,
                     cls=tcls, prop=prop, what="non-positive-scale"))
                 break
-            if abs(v / cur - 1) < 1e-12 and not _geo_close(t0, t1):
+            if abs(v / cur - 1) < 1e-12 and not _geo_close(t0, t1, 10 * _rtol(prop)):
                 res["violations"].append(violation(
                     PROP, "similarity", "assigning the current value changed the shape", si,
                     cls=tcls, prop=prop, what="identity-changed-shape"))
@@ -504,12 +504,15 @@ def execute(spec, world):
     return res
 
 
-def _geo_close(a, b):
+def _geo_close(a, b, rtol=1e-12):
+    """Same geometry up to ``rtol`` of its largest coordinate (the setter reads the current
+    value itself; for the solver-based radii that reading carries the solver's tolerance)."""
     for k in a:
         if k == "faces":
             continue
-        if not np.allclose(np.asarray(a[k], float), np.asarray(b[k], float), rtol=1e-12,
-                           atol=1e-300):
+        x, y = np.asarray(a[k], float), np.asarray(b[k], float)
+        scale = float(np.max(np.abs(x))) if x.size else 0.0
+        if x.shape != y.shape or float(np.max(np.abs(x - y))) > rtol * scale + 1e-300:
             return False
     return True
 
